@@ -124,8 +124,9 @@ def handle : Handler := fun op args =>
       | [] => "undef"      -- `lists[0]` of an empty outer list: outside the quantifier
       | l0 :: rest => ans (transposeGuard l0 rest) (transposeReads (lens.map ones))
   | "c10.transpose2" => withArgs p2 args fun (n, m) => ans (transposeGuard n [m]) (transposeReads [ones n, ones m])
-  | "c10.closest" => withArgs (do let l ← pRats; let t ← pRat; pure (l, t)) args fun (l, _) =>
-      if l.length = 0 then "undef" else ans (closestGuard l)
+  | "c10.closest" => withArgs (do let l ← pRats; let t ← pRat; pure (l, t)) args fun (l, t) =>
+      -- an empty list is outside the quantifier (`sorted_list.size() - 1` wraps)
+      if l.length = 0 then "undef" else ans (closestGuard l) (closestReads l (l.takeWhile (fun x => decide (x ≤ t))).length)
   | "c10.sublist" => withArgs (do let n ← pNat; let a ← pInt; let b ← pNat; pure (n, a, b)) args fun (n, a, b) =>
       ans (subListGuard n a b) (subListReads (ones n) a b)
   | "c10.inunits" => withArgs (do let l ← pNats; let nd ← pNat; pure (l, nd)) args fun (l, nd) => ans (inUnitsGuard l nd) (inUnitsReads (l.map ones) (ones nd))
